@@ -17,6 +17,7 @@
 #include <unordered_map>
 #include <chrono>
 #include <mutex>
+#include <condition_variable>
 
 namespace verif {
 
@@ -39,6 +40,7 @@ struct VThread {
 	const void * waitObj;
 	sem_t sem;
 	bool timedOut;
+	bool spurious;
 	long spinStamp;
 	VClock vc;
 	std::function<void()> body;
@@ -72,6 +74,8 @@ public:
 	DeadlockInfo deadlock;
 	bool horizonHit;
 	int preemptions;
+	int spuriousBudget;      // >0: a thread parked in an untimed condition wait may be woken without a notify (each is a deviation of cost 1)
+	int spuriousUsed;
 	// happens-before race detection on annotated locations
 	struct Loc { VClock lastWrite; int lastWriter; VClock reads; const char * wtag; };
 	std::unordered_map<const void *, Loc> locs;
@@ -79,7 +83,7 @@ public:
 	std::vector<std::pair<const char *, const char *> > sharedRanges;
 	bool raceDetection;
 
-	Sched() : active(false), aborting(false), cur(0), steps(0), progress(0), maxSteps(4000), horizonHit(false), preemptions(0), raceDetection(true) {}
+	Sched() : active(false), aborting(false), cur(0), steps(0), progress(0), maxSteps(4000), horizonHit(false), preemptions(0), spuriousBudget(0), spuriousUsed(0), raceDetection(true) {}
 
 	static VThread *& me() { static thread_local VThread * t = nullptr; return t; }
 
@@ -93,10 +97,10 @@ public:
 	void begin() {
 		for(size_t i = 0; i < threads.size(); ++i) { sem_destroy(&threads[i]->sem); delete threads[i]; }
 		threads.clear(); locs.clear(); spinClocks.clear(); sharedRanges.clear();
-		active = true; aborting = false; steps = 0; progress = 0; horizonHit = false; preemptions = 0;
+		active = true; aborting = false; steps = 0; progress = 0; horizonHit = false; preemptions = 0; spuriousUsed = 0;
 		deadlock = DeadlockInfo();
 		VThread * t0 = new VThread();
-		t0->id = 0; t0->st = T_RUNNABLE; t0->waitObj = nullptr; t0->timedOut = false; t0->spinStamp = -1; t0->lastTag = "";
+		t0->id = 0; t0->st = T_RUNNABLE; t0->waitObj = nullptr; t0->timedOut = false; t0->spurious = false; t0->spinStamp = -1; t0->lastTag = "";
 		sem_init(&t0->sem, 0, 0);
 		threads.push_back(t0);
 		me() = t0; cur = 0;
@@ -106,7 +110,7 @@ public:
 		VThread * t = new VThread();
 		t->id = (int)threads.size();
 		if(t->id >= MAXT) { fprintf(stderr, "too many threads\n"); abort(); }
-		t->st = T_RUNNABLE; t->waitObj = nullptr; t->timedOut = false; t->spinStamp = -1; t->lastTag = "";
+		t->st = T_RUNNABLE; t->waitObj = nullptr; t->timedOut = false; t->spurious = false; t->spinStamp = -1; t->lastTag = "";
 		t->body = body;
 		sem_init(&t->sem, 0, 0);
 		VThread * parent = me();
@@ -239,6 +243,14 @@ inline void Sched::switchFrom(VThread * m, const char * tag) {
 			if(t->st == T_WAIT_CV_TIMED && enabled(t)) { opts[n] = t; isTimeout[n] = true; ++n; }
 		}
 	}
+	// spurious wake-ups (always a deviation): an untimed waiter returns from the wait although nobody notified it
+	int realOptions = n;
+	if(!horizonHit && spuriousUsed < spuriousBudget && n > 0) {
+		for(size_t i = 0; i < threads.size(); ++i) {
+			VThread * t = threads[i];
+			if(t->st == T_WAIT_CV && t != m && *(const int *)t->waitObj < 0 && n < 2 * MAXT) { opts[n] = t; isTimeout[n] = false; ++n; }
+		}
+	}
 	if(n == 0) {
 		// nobody can run
 		bool allDone = true;
@@ -260,10 +272,12 @@ inline void Sched::switchFrom(VThread * m, const char * tag) {
 	if(meEnabled) freeUpTo = 1;                    // leaving a thread that could continue is a preemption
 	else if(plain > 0) freeUpTo = plain;           // free choice among runnable threads; firing a timeout while something can run is a deviation
 	else freeUpTo = n;                             // only timeouts left: time passes
+	if(freeUpTo > realOptions) freeUpTo = realOptions;
 	int pick = gctx()->ex.choose(n, freeUpTo, K_SCHED);
 	if(pick >= freeUpTo) ++preemptions;
 	VThread * next = opts[pick];
 	if(isTimeout[pick]) next->timedOut = true;
+	if(pick >= realOptions) { ++spuriousUsed; next->spurious = true; if(gctx()->wantLog()) gctx()->log(fmt("-- spurious wake-up of T%d", next->id)); }
 	if(gctx()->wantLog() && (next != m)) gctx()->log(fmt("-- switch T%d -> T%d%s at %s", m->id, next->id, isTimeout[pick] ? " (timeout fires)" : "", tag));
 	if(next == m) return;
 	cur = next->id;
@@ -393,7 +407,7 @@ struct VCondVar {
 		mx->unlock();
 		m->st = timed ? T_WAIT_CV_TIMED : T_WAIT_CV;
 		m->waitObj = &mx->owner;
-		m->timedOut = false;
+		m->timedOut = false; m->spurious = false;
 		waiters.push_back(m);
 		++s.progress;
 		try { s.switchFrom(m, timed ? "cv.wait_for" : "cv.wait"); }
@@ -404,11 +418,24 @@ struct VCondVar {
 			throw;
 		}
 		bool to = m->timedOut;
-		if(to) { for(size_t i = 0; i < waiters.size(); ++i) if(waiters[i] == m) { waiters.erase(waiters.begin() + i); break; } }
+		if(to || m->spurious) { for(size_t i = 0; i < waiters.size(); ++i) if(waiters[i] == m) { waiters.erase(waiters.begin() + i); break; } }
+		m->spurious = false;
 		mx->owner = m->id; m->st = T_RUNNABLE; m->vc.join(mx->vc);
 		return to;
 	}
 
+	// non-predicate forms (not used by the pinned tree; provided so that a change to them still builds and is judged)
+	void wait(std::unique_lock<VMutex> & lock) {
+		Sched & s = sched();
+		if(!s.active || !Sched::me()) { gctx()->fail("blocks-forever", "wait() without predicate called in a sequential run: it can never return"); throw Stop{}; }
+		block(lock, false);
+	}
+	template <class Rep, class Period>
+	std::cv_status wait_for(std::unique_lock<VMutex> & lock, const std::chrono::duration<Rep, Period> & d) {
+		Sched & s = sched();
+		if(!s.active || !Sched::me() || d <= d.zero()) return std::cv_status::timeout;
+		return block(lock, true) ? std::cv_status::timeout : std::cv_status::no_timeout;
+	}
 	template <class Pred>
 	void wait(std::unique_lock<VMutex> & lock, Pred pred) {
 		Sched & s = sched();
